@@ -26,6 +26,7 @@
   tree, `hstep false` = the code with `fixes/C16-job-snapshot.diff`, proved equal to `step` over every history).
 -/
 import PercevalModel.Lemmas.C16
+import PercevalModel.Lemmas.C16Est
 import PercevalModel.Lemmas.C16More
 import PercevalModel.Lemmas.C16Mat
 import PercevalModel.Lemmas.C16Heap
@@ -2350,6 +2351,84 @@ example :
     (∀ op ∈ [Op.withInput [1, 0], Op.newSampler (.int 100)], op.touchesPH = false) := by
   refine ⟨rfl, by decide, by decide⟩
 
+/-! ## wave 9: the shot / sample estimators (`Model/C16Est.lean`)
+
+`RemoteProcessor.estimate_required_shots` / `estimate_expected_samples` are where a user gets the `max_shots` /
+`max_samples` of a job from.  Their decision layer (`_compute_sample_of_interest_probability` up to the simulation)
+is modelled; the simulation itself (a local lossy SLOS run) is not. -/
+
+/-- `estimate_required_shots` answers `None` (and `estimate_expected_samples` answers 0) exactly when a filter is
+set and asks, herald photons added, for more photons than the stored input state holds — for ALL processors. -/
+theorem estimate_zero_iff_filter_unreachable (e : Exp) :
+    interest e = .ok .zero ↔
+      ∃ s f, e.input = some s ∧ e.filter = some f ∧ f + (heraldSum e : Nat) > ((s.sum : Nat) : Int) := by
+  rw [interest_ok]
+  constructor
+  · rintro ⟨s, hs, hz⟩
+    obtain ⟨f, hf, hgt⟩ := (interestOf_zero _ _ _).mp hz.symm
+    exact ⟨s, f, hs, hf, hgt⟩
+  · rintro ⟨s, f, hs, hf, hgt⟩
+    exact ⟨s, hs, ((interestOf_zero _ _ _).mpr ⟨f, hf, hgt⟩).symm⟩
+
+/-- the photon count the simulated estimate counts from: at least 2, at most the photons of the stored input,
+and equal to the filter plus the herald photons (the whole input when no filter is set) -/
+theorem estimate_simulated_threshold (e : Exp) (k : Int) (h : interest e = .ok (.simulate k)) :
+    ∃ s, e.input = some s ∧ 2 ≤ k ∧ k ≤ ((s.sum : Nat) : Int) ∧
+      (∀ f, e.filter = some f → k = f + (heraldSum e : Nat)) ∧ (e.filter = none → k = ((s.sum : Nat) : Int)) := by
+  obtain ⟨s, hs, hg⟩ := (interest_ok _ _).mp h
+  exact ⟨s, hs, interestOf_simulate _ _ _ _ hg.symm⟩
+
+/-- on the two closed exits the samples expected from `nshots ≥ 0` shots are never above the shots and never
+negative (`max_samples ≤ max_shots` for a user who derives one limit from the other), and the two estimators agree:
+"no number of shots is enough" (`None`) exactly when "0 samples expected" -/
+theorem estimate_closed_exits (e : Exp) (nshots : Int) (h0 : 0 ≤ nshots) :
+    (∀ k, expectedSamples e nshots = .ok (.exact k) → 0 ≤ k ∧ k ≤ nshots) ∧
+    (requiredShots e nshots = .ok .noneVal ↔ interest e = .ok .zero) ∧
+    (interest e = .ok .zero → expectedSamples e nshots = .ok (.exact 0)) ∧
+    (interest e = .ok .one → expectedSamples e nshots = .ok (.exact nshots) ∧
+      requiredShots e nshots = .ok (.exact nshots)) := by
+  unfold expectedSamples requiredShots
+  cases hi : interest e with
+  | error err => simp [throw, throwThe, MonadExceptOf.throw]
+  | ok g =>
+    cases g <;> simp [pure, Except.pure]
+    all_goals omega
+
+/-- the estimate is about the request that is sent: whenever a payload is produced (input transmitted) and the
+estimate simulates, the threshold `k` is the TRANSMITTED filter plus the TRANSMITTED herald photons, and it is
+within the photons of the TRANSMITTED input state -/
+theorem estimate_counts_what_is_transmitted (pf : Platform) (e : Exp) (cmd : String) (cl : Bool) (kw : Dict V)
+    (e' : Exp) (pl : Dict V) (h : preparePayload pf e cmd cl false kw = (e', .ok pl))
+    (hkw : ∀ k ∈ fieldKeys, dget kw k = none) (k : Int) (hk : interest e = .ok (.simulate k)) :
+    ∃ s f, (decode pl).input = some s ∧ (decode pl).filter = some (.int f) ∧
+      k = f + ((((decode pl).heralds.map (·.2)).sum : Nat) : Int) ∧ 2 ≤ k ∧ k ≤ ((s.sum : Nat) : Int) := by
+  have hc := payload_complete pf e cmd cl false kw e' pl h hkw
+  obtain ⟨s, hs, h2, hle, hkf⟩ := estimate_simulated_threshold e k hk
+  have hfs : ∃ f, e.filter = some f := by
+    unfold preparePayload at h
+    by_cases hcmd : (dget kw "command").isSome
+    · simp [hcmd, throw, throwThe, MonadExceptOf.throw] at h
+    · cases hf : e.filter with
+      | none => simp [hcmd, hf, throw, throwThe, MonadExceptOf.throw] at h
+      | some f => exact ⟨f, rfl⟩
+  obtain ⟨f, hf⟩ := hfs
+  have hne : s ≠ [] := by
+    rintro rfl
+    simp only [List.sum_nil] at hle; omega
+  refine ⟨s, f, ?_, ?_, ?_, h2, hle⟩
+  · rw [hc]; simp [configOf, inputField, hs, hne]
+  · rw [hc]; simp [configOf, hf, pvOfFilter]
+  · rw [hc]; exact hkf.1 f hf
+
+/-- non-vacuity: |1,1,1> with one herald photon inside, filter 1: the estimate simulates from 2 photons; filter 3:
+`None`; no filter on |1,0>: probability 1 -/
+example :
+    interest (Exp.mk 2 3 [(2, 1)] (some [1, 1, 1]) none none (some 1) [] ⟨0, []⟩ []) = .ok (.simulate 2) ∧
+    requiredShots (Exp.mk 2 3 [(2, 1)] (some [1, 1, 1]) none none (some 3) [] ⟨0, []⟩ []) 100 = .ok .noneVal ∧
+    expectedSamples (Exp.mk 2 2 [] (some [1, 0]) none none none [] ⟨0, []⟩ []) 100 = .ok (.exact 100) := by
+  decide
+
+
 /-! ## what is still NOT proved (validated by the correspondence only)
 
 * the matrix reading (`payload_matrix_is_user_matrix`) takes the OWN matrix of every elementary component from the
@@ -2391,6 +2470,10 @@ example :
 * an iteration is judged against the processor as it was when the iteration was added
   (`sent_iterations_were_checked_in_session`: some prefix of the history), not as it is when the job is
   created or sent: the code does not re-check, so no stronger statement holds.
+* wave 9, the shot / sample estimators (`Model/C16Est.lean`): the lossy simulation behind the third exit is not in
+  the model (the theorems pin down WHEN it runs and the photon threshold it counts from, not the number it yields —
+  the harness compares that number with the exact binomial closed form for photon-counting platforms); Python's
+  `round` on floats, `param_values`, a processor without input state and a negative filter are outside.
 * the heap machine knows the two objects a request shares with its makers (`_parameters`, the iterator list);
   the iteration dictionaries inside the list and the objects inside them (a `BasicState`, a `NoiseModel` the user
   keeps a handle on) are values in the model.
